@@ -110,7 +110,7 @@ def quantifier(interp, kind, node, env):
                 tv = interp.eval(tl.body, e2)
                 tv = list(tv) if isinstance(tv, tuple) else [tv]
                 tv = [t for t in tv if is_z3(t)]
-                if tv:
+                if tv and all(_good_trigger(t, vars_) for t in tv):
                     pats = [z3.MultiPattern(*tv) if len(tv) > 1 else tv[0]]
     q = z3.ForAll if kind == "forall" else z3.Exists
     if pats:
@@ -119,6 +119,22 @@ def quantifier(interp, kind, node, env):
         except z3.Z3Exception:
             pass
     return q(vars_, body)
+
+
+def _good_trigger(t, vars_):
+    """No if-then-else inside, mentions a bound variable, is an uninterpreted application."""
+    ids = set(v.get_id() for v in vars_)
+    has_var = False
+    stack = [t]
+    while stack:
+        x = stack.pop()
+        if x.get_id() in ids:
+            has_var = True
+        if z3.is_app(x):
+            if x.decl().kind() == z3.Z3_OP_ITE:
+                return False
+            stack.extend(x.children())
+    return has_var and z3.is_app(t) and t.decl().kind() == z3.Z3_OP_UNINTERPRETED and t.num_args() > 0
 
 
 class CallMixin(object):
